@@ -100,6 +100,13 @@ func sig(gs []G, self string) string {
 	return strings.Join(l, "\n")
 }
 
+var parkedStates = map[string]bool{
+	"chan receive": true, "chan send": true, "select": true, "select (no cases)": true,
+	"chan receive (nil chan)": true, "chan send (nil chan)": true,
+	"sync.Mutex.Lock": true, "sync.RWMutex.RLock": true, "sync.RWMutex.Lock": true,
+	"sync.Cond.Wait": true, "sync.WaitGroup.Wait": true, "IO wait": true,
+}
+
 // Quiescent takes n dumps gap apart and reports whether the system is frozen:
 // the set of goroutines, their states and stacks are identical in all dumps
 // and no goroutine other than the caller (and runtime/testing helpers that
@@ -144,8 +151,10 @@ func Quiescent(n int, gap time.Duration, ignore ...string) (frozen bool, gs []G,
 		if g.ID == self {
 			continue
 		}
-		switch g.State {
-		case "running", "runnable", "sleep", "syscall":
+		if !parkedStates[g.State] {
+			// whitelist: only states that nothing but another goroutine of the
+			// closed system can end count as parked ("GC assist wait",
+			// "semacquire", "sleep", "syscall", "running", "runnable" … do not)
 			return false, gs, dump
 		}
 	}
